@@ -34,6 +34,10 @@ type FrameWriter struct {
 	Slack  int64      `json:"slack,omitempty"` // section length = bytes needed + slack
 	Msgs   []MsgSpec  `json:"msgs"`
 	Passes []ReadPass `json:"passes"`
+	// SlowMsg > 0: the first non-empty underlying write of the Marshal call for
+	// message number SlowMsg (1-based) is slow by SlowNs of simulated time
+	SlowMsg int   `json:"slow_msg,omitempty"`
+	SlowNs  int64 `json:"slow_ns,omitempty"`
 }
 
 type ReadPass struct {
@@ -52,6 +56,13 @@ type ReadPass struct {
 	// BodySize bytes itself — on the same reader the remaining frames are
 	// Unmarshal'ed from: every call still handles exactly one header / frame.
 	HeaderFirst uint64 `json:"header_first,omitempty"`
+	// SlowFrame > 0: the first Read of the library call that handles frame
+	// number SlowFrame (1-based) of this pass is SLOW: SlowNs of simulated time
+	// pass before the stream answers (a slow reader is as benign as a chunking
+	// one: nothing about the result may change, and no Read may arrive once the
+	// call has returned)
+	SlowFrame int   `json:"slow_frame,omitempty"`
+	SlowNs    int64 `json:"slow_ns,omitempty"`
 }
 
 type FramesClean struct{}
@@ -166,7 +177,15 @@ func (FramesClean) Generate(seed uint64, tier string) engine.Plan {
 					np = 2
 				}
 			}
+			if r.Chance(1, 6) {
+				ps.SlowFrame = 1 + r.Intn(nm)
+				ps.SlowNs = r.PickInt64(1000000, 200000000, 2000000000, 60000000000, 3600000000000)
+			}
 			w.Passes = append(w.Passes, ps)
+		}
+		if r.Chance(1, 6) {
+			w.SlowMsg = 1 + r.Intn(nm)
+			w.SlowNs = r.PickInt64(1000000, 200000000, 2000000000, 60000000000, 3600000000000)
 		}
 		if w.Dest != "writer" && r.Chance(1, 2) {
 			w.Passes[r.Intn(np)].Via = "atreader"
@@ -264,8 +283,16 @@ func checkFrameWritten(inv string, step int, spec MsgSpec, msg proto.Message, n 
 
 // readAll reads frames from s one per call and checks each against specs.
 // It is the reader half of the C06 oracle.
-func readAllFrames(inv string, stepBase int, s *simio.Stream, wrap string, data []byte, specs []MsgSpec, frameLens []int64, c *engine.RunCtx, task int, reuse bool, headerFirst uint64) *engine.Failure {
+func readAllFrames(inv string, stepBase int, s *simio.Stream, wrap string, data []byte, specs []MsgSpec, frameLens []int64, c *engine.RunCtx, task int, reuse bool, headerFirst uint64, slowFrame int, slowNs int64) *engine.Failure {
 	src := newSource(wrap, s, data)
+	// every call into the stream is bracketed: a Read that arrives while no call
+	// is in flight belongs to a library call that has already returned
+	endOp := func(step int, what string) *engine.Failure {
+		if late, note, _ := s.EndOp(); late > 0 {
+			return engine.Failf(inv+".late_read", step, "%s had returned, then %d more Read call(s) arrived on its reader: %s", what, late, note)
+		}
+		return nil
+	}
 	if wrap != "" {
 		c.Stats.Inc("probe.C06.source_is_" + wrap)
 	}
@@ -288,6 +315,12 @@ func readAllFrames(inv string, stepBase int, s *simio.Stream, wrap string, data 
 		}
 		before := src.pos()
 		src.beginCall()
+		stall := int64(0)
+		if slowFrame == i+1 {
+			stall = slowNs
+			c.Stats.Inc("fault.configured.io.stall")
+		}
+		s.BeginOp(stall)
 		if headerFirst != 0 && engine.H(headerFirst, uint64(i))%3 == 0 {
 			// ReadHeader, then the body by hand
 			c.Stats.Inc("probe.C06.frame_read_as_ReadHeader_plus_body_by_hand")
@@ -295,6 +328,9 @@ func readAllFrames(inv string, stepBase int, s *simio.Stream, wrap string, data 
 			hn, h, herr, hpan := callReadHeader(src.r)
 			c.Status.SetStep(uint64(step), 0)
 			c.LibCalls++
+			if f := endOp(step, "ReadHeader"); f != nil {
+				return f
+			}
 			c.EvS(task, "readheader", "", hn, int64(src.pos()-before))
 			if hpan != nil {
 				return engine.Failf(inv+".panic", step, "ReadHeader of frame %d panicked: %v", i, hpan)
@@ -309,7 +345,10 @@ func readAllFrames(inv string, stepBase int, s *simio.Stream, wrap string, data 
 				return engine.Failf(inv+".readheader", step, "ReadHeader of frame %d reports (version %q, header %d, body %d), want (one of %q, 32, %d)", i, h.GetVersion(), h.GetHeaderSize(), h.GetBodySize(), spec.WantVersions(), frameLens[i]-32)
 			}
 			body := make([]byte, h.GetBodySize())
-			if _, e := io.ReadFull(src.r, body); e != nil {
+			s.BeginOp(0)
+			_, e := io.ReadFull(src.r, body)
+			s.EndOp()
+			if e != nil {
 				panic(engine.HarnessError{Msg: "reading a body by hand failed: " + e.Error()})
 			}
 			if e := proto.Unmarshal(body, msg); e != nil || !spec.SameContent(msg) {
@@ -322,6 +361,9 @@ func readAllFrames(inv string, stepBase int, s *simio.Stream, wrap string, data 
 		n, ver, err, pan := callUnmarshal(src.r, msg)
 		c.Status.SetStep(uint64(step), 0)
 		c.LibCalls++
+		if f := endOp(step, "Unmarshal"); f != nil {
+			return f
+		}
 		c.EvS(task, "unmarshal", ver, n, int64(src.pos()-before))
 		if pan != nil {
 			if la, ok := pan.(simio.LivenessAbort); ok {
@@ -420,10 +462,16 @@ func (FramesClean) Execute(pl engine.Plan, c *engine.RunCtx) *engine.Failure {
 				}
 				msg := spec.Build()
 				var before int
+				stall := int64(0)
+				if w.SlowMsg == i+1 {
+					stall = w.SlowNs
+					st.Inc("fault.configured.io.stall")
+				}
 				if sw != nil {
 					before = len(sw.Got)
+					sw.BeginOp(stall)
 				} else {
-					h.BeginOp(simio.Arm{})
+					h.BeginOp(simio.Arm{StallNs: stall})
 				}
 				// Size/HeaderSize are usually asked BEFORE the frame is written (in a
 				// cold process: before anything else of the package has run); for a
@@ -448,6 +496,17 @@ func (FramesClean) Execute(pl engine.Plan, c *engine.RunCtx) *engine.Failure {
 				n, err, pan := callMarshal(dst, msg)
 				c.Status.SetStep(uint64(step), 0)
 				c.LibCalls++
+				late, lateNote := 0, ""
+				if sw != nil {
+					late, lateNote, _ = sw.EndOp()
+				} else {
+					h.EndOp()
+					late, lateNote = h.LateCalls, h.LateNote
+				}
+				if late > 0 {
+					fail = engine.Failf("C06.late_write", step, "Marshal of frame %d had returned (n=%d, err=%v), then %d more call(s) reached its writer: %s", i, n, err, late, lateNote)
+					return
+				}
 				st.Inc("op.marshal." + spec.Kind)
 				when := "before"
 				if mode == "after" {
@@ -546,7 +605,7 @@ func (FramesClean) Execute(pl engine.Plan, c *engine.RunCtx) *engine.Failure {
 			if pass.Via == "atreader" && (wrap == "bytesreader" || wrap == "bytesbuffer") {
 				wrap = "" // keep the real AtToReader in the path
 			}
-			if f := readAllFrames("C06", 100000+wi*10000+pi*100, stream, wrap, s.written, w.Msgs, s.frameLens, c, wi, pass.Reuse, pass.HeaderFirst); f != nil {
+			if f := readAllFrames("C06", 100000+wi*10000+pi*100, stream, wrap, s.written, w.Msgs, s.frameLens, c, wi, pass.Reuse, pass.HeaderFirst, pass.SlowFrame, pass.SlowNs); f != nil {
 				return f
 			}
 			if len(w.Msgs) > 1 {
@@ -596,6 +655,11 @@ func (FramesClean) Shrink(pl engine.Plan) []engine.Plan {
 				q.Writers[wi].Passes = append(q.Writers[wi].Passes[:i], q.Writers[wi].Passes[i+1:]...)
 				out = append(out, q)
 			}
+		}
+		if w.SlowMsg != 0 {
+			q := clone()
+			q.Writers[wi].SlowMsg, q.Writers[wi].SlowNs = 0, 0
+			out = append(out, q)
 		}
 		if w.Dest != "writer" {
 			q := clone()
@@ -649,6 +713,11 @@ func (FramesClean) Shrink(pl engine.Plan) []engine.Plan {
 			if ps.Reuse {
 				q := clone()
 				q.Writers[wi].Passes[i].Reuse = false
+				out = append(out, q)
+			}
+			if ps.SlowFrame != 0 {
+				q := clone()
+				q.Writers[wi].Passes[i].SlowFrame, q.Writers[wi].Passes[i].SlowNs = 0, 0
 				out = append(out, q)
 			}
 			if ps.Wrap != "" {
